@@ -13,6 +13,7 @@
 (* judged on recorded evaluations (spec/C13Judge.tla).                       *)
 (* Known deviations of otto are the branches D("...").                       *)
 EXTENDS Ops
+CONSTANT KK
 
 Ex(n) == [k |-> "exact", n |-> n]
 Rg(lo, hi) == [k |-> "range", lo |-> lo, hi |-> hi]
@@ -24,40 +25,35 @@ P2N(k) == Canon(FALSE, <<1>>, k)                     \* 2^k
 One == I(1)
 MOne == I(-1)
 Half == P2N(-1)
-MaxD == Canon(FALSE, BnSub(BnShl(<<1>>, 53), <<1>>), 971)
-MinD == P2N(-1074)
+MaxD == KK.MaxD
+MinD == KK.MinD
 AbsN(x) == IF IsNeg(x) THEN NumNeg(x) ELSE x
 Lt(x, y) == NumCmp(x, y) < 0
 Le(x, y) == NumCmp(x, y) <= 0
 
-(* decimal constants: digits given in groups of four *)
-RECURSIVE ChunkBn(_, _, _)
-ChunkBn(c, i, acc) == IF i > Len(c) THEN acc
-                      ELSE LET nx == BnAdd(BnMulSmall(acc, 10000), BnFromInt(c[i]))
-                           IN  IF Len(nx) < 0 THEN nx ELSE ChunkBn(c, i + 1, nx)
-Dec(c, q) == DecToNum(FALSE, ChunkBn(c, 1, <<>>), q)
-
-(* 15.8.1: "the Number value for" e, ln 10, ... = the double nearest to it (28 significant digits given) *)
-ConstE       == Dec(<<2718, 2818, 2845, 9045, 2353, 6028, 7471>>, -27)
-ConstLN10    == Dec(<<2302, 5850, 9299, 4045, 6840, 1799, 1454>>, -27)
-ConstLN2     == Dec(<<6931, 4718,  559, 9453,  941, 7232, 1214>>, -28)
-ConstLOG2E   == Dec(<<1442, 6950, 4088, 8963, 4073, 5992, 4681>>, -27)
-ConstLOG10E  == Dec(<<4342, 9448, 1903, 2518, 2765, 1128, 9189>>, -28)
-ConstPI      == Dec(<<3141, 5926, 5358, 9793, 2384, 6264, 3383>>, -27)
-ConstSQRT1_2 == Dec(<<7071,  678, 1186, 5475, 2440,  844, 3621>>, -28)
-ConstSQRT2   == Dec(<<1414, 2135, 6237, 3095,  488,  168, 8724>>, -27)
+(* The numeric constants live in MathConst.tla and reach this module as the  *)
+(* record KK: TLC caches a constant definition of the root module but        *)
+(* re-evaluates every definition reached through INSTANCE ... WITH.          *)
+ConstE       == KK.E
+ConstLN10    == KK.LN10
+ConstLN2     == KK.LN2
+ConstLOG2E   == KK.LOG2E
+ConstLOG10E  == KK.LOG10E
+ConstPI      == KK.PI
+ConstSQRT1_2 == KK.SQRT1_2
+ConstSQRT2   == KK.SQRT2
 MathConsts == [E |-> ConstE, LN10 |-> ConstLN10, LN2 |-> ConstLN2, LOG2E |-> ConstLOG2E,
                LOG10E |-> ConstLOG10E, PI |-> ConstPI, SQRT1_2 |-> ConstSQRT1_2, SQRT2 |-> ConstSQRT2]
-
-HalfPi == NumMul(ConstPI, Half)
-QuartPi == NumMul(ConstPI, P2N(-2))
-ThreeQuartPi == NumMul(ConstPI, Canon(FALSE, <<3>>, -2))
-SixthPi == NumDiv(ConstPI, I(6))
-ThirdPi == NumDiv(ConstPI, I(3))
+HalfPi == KK.HalfPi
+QuartPi == KK.QuartPi
+ThreeQuartPi == KK.ThreeQuartPi
+SixthPi == KK.SixthPi
+ThirdPi == KK.ThirdPi
+InvE == KK.InvE
 
 (* "an implementation-dependent approximation to K": within 2^-46 relative   *)
-TolUp == NumAdd(One, P2N(-46))
-TolDn == NumSub(One, P2N(-46))
+TolUp == KK.TolUp
+TolDn == KK.TolDn
 About(K) ==
     IF IsZero(K) \/ ~IsFinite(K) THEN Rg(K, K)
     ELSE IF IsNeg(K) THEN Rg(NumMul(K, TolUp), NumMul(K, TolDn))
@@ -245,7 +241,7 @@ ExpClass(x) ==       \* 15.8.2.8
     ELSE IF x = NInf THEN Ex(I(0))
     ELSE IF Le(AbsN(x), P2N(-54)) THEN About(One)
     ELSE IF x = One THEN About(ConstE)
-    ELSE IF x = MOne THEN About(NumDiv(One, ConstE))
+    ELSE IF x = MOne THEN About(InvE)
     ELSE IF Le(I(710), x) THEN Rg(MaxD, PInf)                      \* e^710 > the largest double
     ELSE IF Le(x, I(-746)) THEN Rg(I(0), MinD)                     \* e^-746 < half the smallest double
     ELSE IF IsNeg(x) THEN Rg(I(0), One) ELSE Rg(One, PInf)
